@@ -317,6 +317,10 @@ CallResult RunCtx::call(Session& s, const CallSpec& c, int stepno, bool monitors
         count(std::string{"fault-fired:"} + io_fault_name(r.ctx.io_fault_fired));
     if (c.alloc_fail_at > 0)
         count("fault-configured:alloc");
+    if (c.sink_fail_after >= 0)
+        count("fault-configured:sink");
+    if (r.sink_fault_fired)
+        count("fault-fired:sink");
     if (c.sched.fault_at)
         count(std::string{"fault-configured:"} + io_fault_name(c.sched.fault_kind));
     if (r.ctx.dlopen_refused)
